@@ -559,8 +559,49 @@ def sessions_long(args):
     return acc.export()
 
 
+def sessions_two_windows(args):
+    """Two FullscreenWindow objects on two terminals, alive at the same time, rendered alternately (and in runs of 1..3 renders each):
+    what one window shows must not depend on the other (state kept on the class or in the module would be shared)."""
+    tier, seed, hide, part, nparts = args
+    acc = Acc(seed=seed, sample_stride=1999)
+    wa, wb = World(hide), World(not hide)
+    sizes = ((2, 3), (3, 2))
+    wa.initial(*sizes[0])
+    wb.initial(*sizes[1])
+    ta, tb = wa.proxy.term, wb.proxy.term
+    arrs_a = list(arrays_for(2, 3, "sharp"))
+    arrs_b = list(arrays_for(3, 2, "sharp"))
+    n = 0
+    for i, A in enumerate(arrs_a):
+        for j in range(i % 131, len(arrs_b), 131):
+            n += 1
+            if n % nparts != part:
+                continue
+            B = arrs_b[j]
+            for pattern in ("ab", "ba", "aab", "abb", "abab"):
+                for who in pattern:
+                    world, term, arr, size = (wa, ta, A, sizes[0]) if who == "a" else (wb, tb, B, sizes[1])
+                    cur = (0, 0)
+                    term.scrolls = 0
+                    sb = len(term.scrollback)
+                    case = {"hide_cursor": world.hide, "size": list(size), "two_windows": {"pattern": pattern, "this_window": who, "other_window_renders": show_arr(B if who == "a" else A)}, "render": show_arr(arr), "cursor": [0, 0]}
+                    acc.case(True, key=("two", hide, A, B, pattern, who))
+                    acc.transitions += 1
+                    try:
+                        world.win.render_to_terminal(build_array(arr), cur)
+                    except Exception as ex:  # noqa
+                        acc.failure("C02:render_raises:" + type(ex).__name__, case, repr(ex))
+                        continue
+                    check_screen(acc, term, arr, cur, world.hide, case, sb)
+    wa.proxy.close()
+    wb.proxy.close()
+    return acc.export()
+
+
 def run(ctx):
     rep = Report()
+    for d in ctx.pmap(sessions_two_windows, [(ctx.tier, ctx.seed, hide, p, 8) for hide in (True, False) for p in range(8)]):
+        rep.merge(d, "two_windows_alive_at_once")
     for d in ctx.pmap(sessions_long, [(ctx.tier, ctx.seed, hide, stride) for hide in (True, False) for stride in (1, 7, 11, 13)]):
         rep.merge(d, "one_window_hundreds_of_renders")
     wide = [(ctx.tier, ctx.seed, hide, h, w, p, 8) for hide in (True, False) for (h, w) in ((2, 24), (3, 31)) for p in range(8)]
